@@ -29,7 +29,10 @@ RULE = (
     '(thorough 1-14) chained operations, each drawn from the state of the '
     'file it is applied to: copy; sliceDimensions over a non-empty subset of '
     'TSTEP/LAY/ROW/COL with ints in [-n,n-1] or non-empty slices (step '
-    'None/1/2/full reverse); subsetVariables (non-empty, any order); '
+    'None/1/2/full reverse), one slice in five on gridded files a zipped '
+    'cell selection (ROW and COL as paired index lists of 1-4 entries, '
+    'newdims default POINTS / PERIM / CELLS, optional TSTEP/LAY windows); '
+    'subsetVariables (non-empty, any order); '
     'renameVariable to a fresh name (1/2), to a name of 17-24 characters '
     '(accepted by the library, which leaves the variable unlisted; 1/4) or '
     'onto the name of another listed variable (which it replaces; 1/4) - '
@@ -47,17 +50,20 @@ RULE = (
     'chains are drawn from the complement of the input classes of the known '
     'findings (currently: no stack along LAY).  Oracle after the construction and after every operation that '
     'returns: NVARS == len(VAR-LIST)/16 == number of 16-wide names in '
-    'VAR-LIST == len(dimension VAR) == TFLAG.shape[1]; VAR-LIST length is a '
-    'multiple of 16; every listed name is a variable with the standard '
-    'dimensions of the file type; NROWS/NCOLS/NLAYS equal the lengths of '
+    'VAR-LIST == len(dimension VAR) == TFLAG.shape[1] (VAR and TFLAG of '
+    'width 1 when NVARS == 0 and the file holds no listable variable); '
+    'VAR-LIST length is a '
+    'multiple of 16; every listed name is a variable with one of the two '
+    'standard dimension tuples; NROWS/NCOLS/NLAYS equal the lengths of '
     'ROW/COL/LAY where the dimension exists; len(VGLVLS) == NLAYS+1; SDATE, '
     'STIME == TFLAG[0,0,:].  All comparisons are integer/exact.  An '
     'operation that raises yields no result and is counted (label raised:*), '
     'not judged.  The chain stops at the first incoherent result (no '
     'cascades).  Secondary oracle: the structural keys of '
     'audit_meta(fail="ignore") (LAY ROW COL VAR VAR-LIST-LEN VAR-LIST '
-    'SDATE_TFLAG STIME_TFLAG has_TFLAG) must agree with the primary oracle; '
-    'a disagreement is a harness error.  Non-trivial: >=2 operations '
+    'SDATE_TFLAG STIME_TFLAG has_TFLAG): an audit failure the primary oracle '
+    'does not see is a harness error; a primary failure the audit does not '
+    'see is labelled and reported as the violation it is.  Non-trivial: >=2 operations '
     'returned and at least one of them changed a dimension length or the '
     'set of variables (slice/apply/subset/rename/eval/stack/interp), or the '
     'chain contains a TSTEP reduction or a rename.  Distinct by sha1 of the '
@@ -71,9 +77,15 @@ ASSUMPTIONS = [
     'stack along LAY is in the domain only for operands whose level edges '
     'abut (pieces of one file, in order): otherwise no array of NLAYS+1 '
     'edges describes the result and the statement cannot be met',
-    'eval overwriting an existing variable and zipped ROW/COL index lists '
-    '(which unlist every variable: the excluded zero-variable case) are '
-    'outside the domain',
+    'eval overwriting an existing variable is outside the domain',
+    'a file with no listable variable at all (after a zipped ROW/COL '
+    'selection to a non-standard dimension) is coherent when it lists '
+    'nothing: NVARS 0, VAR-LIST empty, VAR and TFLAG of width max(NVARS,1) '
+    '= 1 (what the unmodified library returns); NVARS 0 while a listable '
+    'variable exists is a violation',
+    'a listed variable may have either standard layout (TSTEP,LAY,ROW,COL '
+    'or TSTEP,LAY,PERIM): a zipped selection with newdims=(PERIM,) turns a '
+    'gridded file into the boundary layout',
     'an operation that raises is not a result (C01 judges completion)',
     'audit_meta is used only as a second opinion; it raises KeyError on '
     'boundary files that carry NROWS/NCOLS (counted as audit-raised)']
@@ -90,6 +102,7 @@ CALLABLES = {
 }
 MASKS = ('greater', 'less', 'greater_equal', 'less_equal', 'equal', 'values')
 FRESH = ('OZONE', 'NEWVAR', 'T1', 'Q', 'RENAMED_16_CHARS', 'SUM_AB')
+ANYSTD = [tuple(v) for v in I.STD_DIMS.values()]
 CHANGING = ('slice', 'apply', 'subset', 'rename', 'eval', 'stack', 'interp')
 
 
@@ -110,6 +123,17 @@ def coherence(f, std_dims):
         return out
     nvars = int(nvars)
     names = []
+    anystd = [tuple(v) for v in I.STD_DIMS.values()]
+    listable = [k for k in f.variables.keys()
+                if tuple(f.variables[k].dimensions) in anystd and
+                len(k) <= 16 and not k.endswith('TFLAG')]
+    # a file without any listable variable (all of them moved off the
+    # standard dimensions, e.g. by a zipped ROW/COL selection) lists
+    # nothing: NVARS 0, empty VAR-LIST, and VAR / TFLAG of width
+    # max(NVARS, 1) = 1, which is how the format defines the VAR dimension
+    width = nvars
+    if nvars == 0 and not listable:
+        width = 1
     if len(varlist) % 16 != 0:
         out.append(('varlist-width', 'len(VAR-LIST) = %d is not a multiple '
                     'of 16: %r' % (len(varlist), varlist)))
@@ -124,7 +148,7 @@ def coherence(f, std_dims):
                 nvars, names)))
     if 'VAR' not in dims:
         out.append(('nvars-vardim', 'dimension VAR missing'))
-    elif dims['VAR'] != nvars:
+    elif dims['VAR'] != width:
         out.append(('nvars-vardim', 'NVARS = %d but len(dimension VAR) = %d '
                     '(VAR-LIST %r)' % (nvars, dims['VAR'], varlist)))
     if 'TFLAG' not in f.variables:
@@ -132,7 +156,7 @@ def coherence(f, std_dims):
         tflag = None
     else:
         tflag = f.variables['TFLAG']
-        if len(tflag.shape) != 3 or tflag.shape[1] != nvars:
+        if len(tflag.shape) != 3 or tflag.shape[1] != width:
             out.append(('nvars-tflag', 'NVARS = %d but TFLAG.shape = %r' % (
                 nvars, tuple(tflag.shape))))
     for nm in names:
@@ -140,7 +164,7 @@ def coherence(f, std_dims):
             out.append(('listed-missing', 'VAR-LIST names %r which is not a '
                         'variable (variables %r)' % (
                             nm, list(f.variables.keys()))))
-        elif tuple(f.variables[nm].dimensions) != tuple(std_dims):
+        elif tuple(f.variables[nm].dimensions) not in anystd:
             out.append(('listed-dims', 'listed variable %s has dimensions %r'
                         % (nm, tuple(f.variables[nm].dimensions))))
     for att, dk, clause in (('NROWS', 'ROW', 'nrows'), ('NCOLS', 'COL',
@@ -198,9 +222,21 @@ def second_opinion(f, primary, r, what):
         audit_fail = not bool(audit[key])
         if key == 'VAR-LIST-LEN' and 'nvars-attr' in failed:
             continue
+        if key == 'VAR' and int(getattr(f, 'NVARS', -1)) == 0 and \
+                'nvars-vardim' not in failed:
+            # zero listed variables: VAR has length max(NVARS, 1) = 1,
+            # which audit_meta compares with NVARS itself
+            continue
         if key == 'VAR-LIST' and not getattr(f, 'VAR-LIST', '').strip():
             # audit_meta derives the expected list from the variables when
             # VAR-LIST is empty; the property does not ask for that
+            continue
+        if mine_fail and not audit_fail:
+            # the primary oracle already reports this result as a violation
+            # (to be analysed under the findings protocol); the audit not
+            # seeing it is recorded, not fatal - audit_meta shares code
+            # (getVarlist) with the operations being judged
+            r.label('audit:missed-primary-failure')
             continue
         if mine_fail != audit_fail:
             raise HarnessError(
@@ -213,6 +249,8 @@ def second_opinion(f, primary, r, what):
 def to_sel(s):
     if s[0] == 'int':
         return int(s[1])
+    if s[0] == 'list':
+        return [int(i) for i in s[1]]
     return slice(*s[1])
 
 
@@ -228,6 +266,8 @@ def step_class(step):
         return k
     if op == 'stack' and a.get('dim', 'TSTEP') != 'TSTEP':
         return 'stack:' + a['dim']
+    if op == 'slice' and any(v[0] == 'list' for v in a['dims'].values()):
+        return 'slice:zip'
     return op
 
 
@@ -272,7 +312,7 @@ class Machine(object):
         # variables an IOAPI file can list: standard dimensions and a name
         # of at most 16 characters (longer names are accepted but unlisted)
         datavars = [k for k in f.variables.keys()
-                    if tuple(f.variables[k].dimensions) == self.std and
+                    if tuple(f.variables[k].dimensions) in ANYSTD and
                     len(k) <= 16]
         extra = [k for k in f.variables.keys()
                  if k not in datavars and k != 'TFLAG']
@@ -300,6 +340,9 @@ class Machine(object):
         self.r.label('op:' + op)
         if op == 'rename':
             self.r.label('rename:' + a.get('kind', 'fresh'))
+        if op == 'slice' and step_class(step) == 'slice:zip':
+            self.r.label('slice:zip:' + (a['newdims'][0] if a.get('newdims')
+                                         else 'default'))
         if op == 'stack':
             self.r.label('stack:%s:%s' % (a.get('dim', 'TSTEP'), a['with']
                                           if isinstance(a['with'], str)
@@ -351,8 +394,10 @@ def describe(step):
 
 
 def _slice(f, a):
-    return f.sliceDimensions(**dict((d, to_sel(s))
-                                    for d, s in a['dims'].items()))
+    kw = dict((d, to_sel(s)) for d, s in a['dims'].items())
+    if a.get('newdims'):
+        kw['newdims'] = tuple(a['newdims'])
+    return f.sliceDimensions(**kw)
 
 
 def _apply(f, a):
@@ -432,6 +477,27 @@ def draw_step(draw, s, avoid):
     op = draw(st.sampled_from(ops))
     if op == 'copy':
         return ['copy', {}]
+    if op == 'slice' and 'ROW' in dims and 'COL' in dims and \
+            draw(st.integers(0, 4)) == 0:
+        # selection of individual cells: ROW and COL as paired index lists
+        # (default newdims ('POINTS',), or ('PERIM',), or a custom name),
+        # optionally with windows on TSTEP / LAY.  The data variables move
+        # to (TSTEP, LAY, <newdim>); with 'PERIM' that is the standard
+        # boundary layout and they stay listed, otherwise nothing is listed
+        k = draw(st.integers(1, 4))
+        sel = {}
+        for d in ('ROW', 'COL'):
+            n = dims[d]
+            sel[d] = ['list', draw(st.lists(st.integers(-n, n - 1),
+                                            min_size=k, max_size=k))]
+        for d in ('TSTEP', 'LAY'):
+            if d in dims and draw(st.integers(0, 2)) == 0:
+                sel[d] = draw_selector(draw, dims[d])
+        out = {'dims': sel}
+        nd = draw(st.sampled_from(['default', 'default', 'PERIM', 'CELLS']))
+        if nd != 'default' and nd not in dims:
+            out['newdims'] = [nd]
+        return ['slice', out]
     if op == 'slice':
         cand = [d for d in ('TSTEP', 'LAY', 'ROW', 'COL') if d in dims]
         k = draw(st.integers(1, len(cand)))
@@ -463,7 +529,8 @@ def draw_step(draw, s, avoid):
             new = fresh_name(draw, s['allvars'], True)
         return ['rename', {'old': old, 'new': new, 'kind': kind}]
     if op == 'apply':
-        cand = [d for d in ('TSTEP', 'LAY', 'ROW', 'COL', 'PERIM')
+        cand = [d for d in ('TSTEP', 'LAY', 'ROW', 'COL', 'PERIM', 'POINTS',
+                            'CELLS')
                 if d in dims]
         k = draw(st.integers(1, min(3, len(cand))))
         chosen = draw(st.permutations(cand))[:k]
